@@ -102,6 +102,11 @@ pub enum Error {
         found: TypeNodeId,
         location: Location,
     },
+    /// A constructor pattern has an inner pattern although the constructor carries no value
+    ConstructorWithoutPayload {
+        constructor: Symbol,
+        location: Location,
+    },
     /// Match expression is not exhaustive (missing patterns)
     NonExhaustiveMatch {
         missing_constructors: Vec<Symbol>,
@@ -230,6 +235,9 @@ impl ReportableError for Error {
                     "Expected a union type but found {}",
                     found.to_type().to_string_for_error()
                 )
+            }
+            Error::ConstructorWithoutPayload { constructor, .. } => {
+                format!("Constructor \"{constructor}\" carries no value that a pattern could bind")
             }
             Error::NonExhaustiveMatch {
                 missing_constructors,
@@ -543,6 +551,15 @@ impl ReportableError for Error {
                         "Expected a union type but found {}",
                         found.to_type().to_string_for_error()
                     ),
+                )]
+            }
+            Error::ConstructorWithoutPayload {
+                constructor,
+                location,
+            } => {
+                vec![(
+                    location.clone(),
+                    format!("\"{constructor}\" is declared without a payload"),
                 )]
             }
             Error::NonExhaustiveMatch {
@@ -1527,6 +1544,107 @@ impl InferContext {
                 // For constructor patterns, recursively handle the inner pattern
                 if let Some(inner_pat) = inner {
                     self.add_pattern_bindings(inner_pat, ty);
+                }
+            }
+        }
+    }
+
+    /// Report a match pattern that cannot match a value of type `ty`: a literal on something
+    /// that is not a number, a tuple pattern on something that is not a tuple of that width, a
+    /// constructor the type does not have, an inner pattern for a constructor without payload.
+    /// Variables are bound separately (`add_pattern_bindings`, `check_pattern_against_type`).
+    fn check_match_pattern_type(
+        &mut self,
+        pattern: &crate::ast::MatchPattern,
+        ty: TypeNodeId,
+        loc: &Location,
+    ) {
+        use crate::ast::MatchPattern;
+        match pattern {
+            MatchPattern::Wildcard | MatchPattern::Variable(_) => {}
+            MatchPattern::Literal(lit) => {
+                let pat_ty = match lit {
+                    crate::ast::Literal::Int(_) | crate::ast::Literal::Float(_) => {
+                        Type::Primitive(PType::Numeric).into_id_with_location(loc.clone())
+                    }
+                    _ => Type::Failure.into_id_with_location(loc.clone()),
+                };
+                if let Err(errs) = self.unify_types(ty, pat_ty) {
+                    self.errors.extend(errs);
+                }
+            }
+            MatchPattern::Tuple(patterns) => {
+                let elem_tys = patterns
+                    .iter()
+                    .map(|_| self.gen_intermediate_type_with_location(loc.clone()))
+                    .collect::<Vec<_>>();
+                let pat_ty = Type::Tuple(elem_tys.clone()).into_id_with_location(loc.clone());
+                match self.unify_types(ty, pat_ty) {
+                    Ok(_) => patterns.iter().zip(elem_tys).for_each(|(pat, elem_ty)| {
+                        self.check_match_pattern_type(pat, elem_ty, loc)
+                    }),
+                    Err(errs) => self.errors.extend(errs),
+                }
+            }
+            MatchPattern::Constructor(constructor_name, inner) => {
+                let resolved = Self::substitute_type(self.resolve_type_alias(ty));
+                // the payload of the constructor when `ty` has such a constructor
+                let payload_in_ty = match resolved.to_type() {
+                    Type::UserSum { variants, .. } => variants
+                        .iter()
+                        .find(|(name, _)| name == constructor_name)
+                        .map(|(_, payload_ty)| *payload_ty),
+                    Type::Union(variants) => variants
+                        .iter()
+                        .find(|v| {
+                            Self::type_constructor_name(&Self::substitute_type(**v).to_type())
+                                == Some(*constructor_name)
+                        })
+                        .map(|v| Some(*v)),
+                    _ => None,
+                };
+                let declared = self
+                    .constructor_env
+                    .get(constructor_name)
+                    .map(|info| (info.sum_type, info.payload_type));
+                let payload = match (payload_in_ty, declared) {
+                    (Some(payload_ty), _) => Some(payload_ty),
+                    // a declared constructor: the scrutinee has to be of its sum type
+                    (None, Some((sum_ty, payload_ty))) => match self.unify_types(ty, sum_ty) {
+                        Ok(_) => Some(payload_ty),
+                        Err(errs) => {
+                            self.errors.extend(errs);
+                            None
+                        }
+                    },
+                    (None, None) => {
+                        match resolved.to_type() {
+                            Type::UserSum { .. } | Type::Union(_) => {
+                                self.errors.push(Error::ConstructorNotInUnion {
+                                    constructor: *constructor_name,
+                                    union_type: resolved,
+                                    location: loc.clone(),
+                                })
+                            }
+                            // the type of the scrutinee is not known yet
+                            Type::Unknown | Type::Failure | Type::Any => {}
+                            _ => self.errors.push(Error::ExpectedUnionType {
+                                found: resolved,
+                                location: loc.clone(),
+                            }),
+                        }
+                        None
+                    }
+                };
+                match (payload, inner) {
+                    (Some(Some(payload_ty)), Some(inner_pat)) => {
+                        self.check_match_pattern_type(inner_pat, payload_ty, loc)
+                    }
+                    (Some(None), Some(_)) => self.errors.push(Error::ConstructorWithoutPayload {
+                        constructor: *constructor_name,
+                        location: loc.clone(),
+                    }),
+                    _ => {}
                 }
             }
         }
@@ -2827,17 +2945,11 @@ impl InferContext {
                 let arm_tys: Vec<TypeNodeId> = arms
                     .iter()
                     .map(|arm| {
+                        // the pattern has to be one that a value of the scrutinee's type can match
+                        // (for numeric patterns: the scrutinee is numeric)
+                        self.check_match_pattern_type(&arm.pattern, scrut_ty, &loc);
                         match &arm.pattern {
-                            crate::ast::MatchPattern::Literal(lit) => {
-                                // For numeric patterns, check scrutinee is numeric
-                                let pat_ty = match lit {
-                                    crate::ast::Literal::Int(_) | crate::ast::Literal::Float(_) => {
-                                        Type::Primitive(PType::Numeric)
-                                            .into_id_with_location(loc.clone())
-                                    }
-                                    _ => Type::Failure.into_id_with_location(loc.clone()),
-                                };
-                                let _ = self.unify_types(scrut_ty, pat_ty);
+                            crate::ast::MatchPattern::Literal(_) => {
                                 self.infer_type_unwrapping(arm.body)
                             }
                             crate::ast::MatchPattern::Wildcard => {
